@@ -788,6 +788,17 @@ func (n *nilAnalysis) failingCompanion(fn *ssa.Function, r *ssa.Return, v ssa.Va
 				return false
 			}
 		case isBoolType(lt):
+			// `return m[k]` / `v, ok := m[k]; return v, ok`: value and flag of one comma-ok lookup
+			if ex, isEx := c.(*ssa.Extract); isEx && ex.Index == 1 {
+				if vx, isVx := n.resolveAt(v).(*ssa.Extract); isVx && vx.Tuple == ex.Tuple && vx.Index == 0 {
+					if _, isLk := ex.Tuple.(*ssa.Lookup); isLk {
+						continue
+					}
+					if _, isTA := ex.Tuple.(*ssa.TypeAssert); isTA {
+						continue
+					}
+				}
+			}
 			if bv, ok := core.ConstBool(c); !ok || bv {
 				return false
 			}
